@@ -14,6 +14,7 @@ import (
 	"runtime"
 	"slices"
 	"strings"
+	"sync"
 
 	"golang.org/x/tools/go/ssa"
 )
@@ -72,6 +73,7 @@ type interpreter struct {
 	errorStringT types.Type
 	callDepth    int
 	pendingPanic interface{}
+	bigSlices    [][]value
 	hashStreams  map[*value]*[]value
 	hashCalls    []hashCall
 	divHints     map[*Term]divHint
@@ -102,13 +104,63 @@ type frame struct {
 	caller           *frame
 	fn               *ssa.Function
 	block, prevBlock *ssa.BasicBlock
-	env              map[ssa.Value]value // dynamic values of SSA variables
+	env              []value // dynamic values of SSA variables, indexed by fnInfo.index
+	info             *fnInfo
 	locals           []value
 	defers           *deferred
 	result           value
 	panicking        bool
 	panic            interface{}
 	phitemps         []value
+}
+
+// fnInfo numbers the SSA values of a function (computed once, shared by all paths).
+type fnInfo struct {
+	index map[ssa.Value]int
+	n     int
+}
+
+var fnInfos sync.Map // *ssa.Function -> *fnInfo
+
+func infoOf(fn *ssa.Function) *fnInfo {
+	if v, ok := fnInfos.Load(fn); ok {
+		return v.(*fnInfo)
+	}
+	fi := &fnInfo{index: map[ssa.Value]int{}}
+	add := func(v ssa.Value) {
+		if _, ok := fi.index[v]; !ok {
+			fi.index[v] = fi.n
+			fi.n++
+		}
+	}
+	for _, l := range fn.Locals {
+		add(l)
+	}
+	for _, p := range fn.Params {
+		add(p)
+	}
+	for _, fv := range fn.FreeVars {
+		add(fv)
+	}
+	for _, b := range fn.Blocks {
+		for _, in := range b.Instrs {
+			if v, ok := in.(ssa.Value); ok {
+				add(v)
+			}
+		}
+	}
+	v, _ := fnInfos.LoadOrStore(fn, fi)
+	return v.(*fnInfo)
+}
+
+// nilValue marks an SSA value whose dynamic value is Go nil (e.g. a call without results).
+type nilValue struct{}
+
+func (fr *frame) set(key ssa.Value, v value) {
+	if v == nil {
+		v = nilValue{}
+	}
+	fr.env[fr.info.index[key]] = v
 }
 
 func (fr *frame) get(key ssa.Value) value {
@@ -122,10 +174,15 @@ func (fr *frame) get(key ssa.Value) value {
 	case *ssa.Global:
 		return fr.i.global(key)
 	}
-	if r, ok := fr.env[key]; ok {
-		return r
+	if ix, ok := fr.info.index[key]; ok {
+		if r := fr.env[ix]; r != nil {
+			if _, isNil := r.(nilValue); isNil {
+				return nil
+			}
+			return r
+		}
 	}
-	panic(fmt.Sprintf("get: no value for %T: %v", key, key.Name()))
+	panic(fmt.Sprintf("get: no value for %T: %v in %s", key, key.Name(), fr.fn))
 }
 
 // global returns the address of a global, initialising its package lazily.
@@ -220,38 +277,38 @@ func visitInstr(fr *frame, instr ssa.Instruction) continuation {
 		// no-op
 
 	case *ssa.UnOp:
-		fr.env[instr] = unop(i, instr, fr.get(instr.X))
+		fr.set(instr, unop(i, instr, fr.get(instr.X)))
 
 	case *ssa.BinOp:
-		fr.env[instr] = binop(i, instr.Op, instr.X.Type(), fr.get(instr.X), fr.get(instr.Y))
+		fr.set(instr, binop(i, instr.Op, instr.X.Type(), fr.get(instr.X), fr.get(instr.Y)))
 
 	case *ssa.Call:
 		fn, args := prepareCall(fr, &instr.Call)
-		fr.env[instr] = call(fr.i, fr, instr.Pos(), fn, args)
+		fr.set(instr, call(fr.i, fr, instr.Pos(), fn, args))
 
 	case *ssa.ChangeInterface:
-		fr.env[instr] = fr.get(instr.X)
+		fr.set(instr, fr.get(instr.X))
 
 	case *ssa.ChangeType:
-		fr.env[instr] = fr.get(instr.X) // (can't fail)
+		fr.set(instr, fr.get(instr.X)) // (cannot fail)
 
 	case *ssa.Convert:
-		fr.env[instr] = conv(i, instr.Type(), instr.X.Type(), fr.get(instr.X))
+		fr.set(instr, conv(i, instr.Type(), instr.X.Type(), fr.get(instr.X)))
 
 	case *ssa.MultiConvert:
-		fr.env[instr] = conv(i, instr.Type(), instr.X.Type(), fr.get(instr.X))
+		fr.set(instr, conv(i, instr.Type(), instr.X.Type(), fr.get(instr.X)))
 
 	case *ssa.SliceToArrayPointer:
-		fr.env[instr] = sliceToArrayPointer(i, instr.Type(), instr.X.Type(), fr.get(instr.X))
+		fr.set(instr, sliceToArrayPointer(i, instr.Type(), instr.X.Type(), fr.get(instr.X)))
 
 	case *ssa.MakeInterface:
-		fr.env[instr] = iface{t: instr.X.Type(), v: fr.get(instr.X)}
+		fr.set(instr, iface{t: instr.X.Type(), v: fr.get(instr.X)})
 
 	case *ssa.Extract:
-		fr.env[instr] = fr.get(instr.Tuple).(tuple)[instr.Index]
+		fr.set(instr, fr.get(instr.Tuple).(tuple)[instr.Index])
 
 	case *ssa.Slice:
-		fr.env[instr] = slice(i, instr.X.Type(), fr.get(instr.X), fr.get(instr.Low), fr.get(instr.High), fr.get(instr.Max))
+		fr.set(instr, slice(i, instr.X.Type(), fr.get(instr.X), fr.get(instr.Low), fr.get(instr.High), fr.get(instr.Max)))
 
 	case *ssa.Return:
 		switch len(instr.Results) {
@@ -310,15 +367,15 @@ func visitInstr(fr *frame, instr ssa.Instruction) continuation {
 		i.spawn(fn, args, instr.Pos())
 
 	case *ssa.MakeChan:
-		fr.env[instr] = &chanv{cap: int(i.asInt(fr.get(instr.Size)))}
+		fr.set(instr, &chanv{cap: int(i.asInt(fr.get(instr.Size)))})
 
 	case *ssa.Alloc:
 		var addr *value
 		if instr.Heap {
 			addr = new(value)
-			fr.env[instr] = addr
+			fr.set(instr, addr)
 		} else {
-			addr = fr.env[instr].(*value)
+			addr = fr.get(instr).(*value)
 		}
 		*addr = zero(mustDeref(instr.Type()))
 
@@ -331,7 +388,7 @@ func visitInstr(fr *frame, instr ssa.Instruction) continuation {
 		if n > 1<<24 {
 			panic(pathAbort{kind: abortUnsupported, msg: fmt.Sprintf("make slice of %d elements", n)})
 		}
-		slice := make([]value, n)
+		slice := i.allocSlice(int(n))
 		tElt := instr.Type().Underlying().(*types.Slice).Elem()
 		z := zero(tElt)
 		switch z.(type) {
@@ -340,38 +397,36 @@ func visitInstr(fr *frame, instr ssa.Instruction) continuation {
 				slice[k] = zero(tElt)
 			}
 		default:
-			for k := range slice {
-				slice[k] = z
-			}
+			fillZero(slice, z)
 		}
-		fr.env[instr] = slice[:l]
+		fr.set(instr, slice[:l])
 
 	case *ssa.MakeMap:
-		fr.env[instr] = makeMap(instr.Type().Underlying().(*types.Map).Key())
+		fr.set(instr, makeMap(instr.Type().Underlying().(*types.Map).Key()))
 
 	case *ssa.Range:
-		fr.env[instr] = rangeIter(i, fr.get(instr.X), instr.X.Type())
+		fr.set(instr, rangeIter(i, fr.get(instr.X), instr.X.Type()))
 
 	case *ssa.Next:
-		fr.env[instr] = fr.get(instr.Iter).(iter).next()
+		fr.set(instr, fr.get(instr.Iter).(iter).next())
 
 	case *ssa.FieldAddr:
 		p := i.deref(fr.get(instr.X))
-		fr.env[instr] = &(*p).(structure)[instr.Field]
+		fr.set(instr, &(*p).(structure)[instr.Field])
 
 	case *ssa.Field:
-		fr.env[instr] = fr.get(instr.X).(structure)[instr.Field]
+		fr.set(instr, fr.get(instr.X).(structure)[instr.Field])
 
 	case *ssa.IndexAddr:
 		x := fr.get(instr.X)
 		switch x := x.(type) {
 		case []value:
 			idx := i.index(fr.get(instr.Index), len(x))
-			fr.env[instr] = &x[idx]
+			fr.set(instr, &x[idx])
 		case *value: // *array
 			a := (*i.deref(x)).(array)
 			idx := i.index(fr.get(instr.Index), len(a))
-			fr.env[instr] = &a[idx]
+			fr.set(instr, &a[idx])
 		default:
 			panic(fmt.Sprintf("unexpected x type in IndexAddr: %T", x))
 		}
@@ -381,36 +436,36 @@ func visitInstr(fr *frame, instr ssa.Instruction) continuation {
 		switch x := x.(type) {
 		case array:
 			idx := i.index(fr.get(instr.Index), len(x))
-			fr.env[instr] = copyVal(x[idx])
+			fr.set(instr, copyVal(x[idx]))
 		case string, symstr:
 			idx := i.index(fr.get(instr.Index), strLen(x))
-			fr.env[instr] = strAt(x, idx)
+			fr.set(instr, strAt(x, idx))
 		default:
 			panic(fmt.Sprintf("unexpected x type in Index: %T", x))
 		}
 
 	case *ssa.Lookup:
-		fr.env[instr] = lookup(i, instr, fr.get(instr.X), fr.get(instr.Index))
+		fr.set(instr, lookup(i, instr, fr.get(instr.X), fr.get(instr.Index)))
 
 	case *ssa.MapUpdate:
 		m := fr.get(instr.Map).(*hmap)
 		m.insert(i, copyVal(fr.get(instr.Key)), copyVal(fr.get(instr.Value)))
 
 	case *ssa.TypeAssert:
-		fr.env[instr] = typeAssert(fr.i, instr, fr.get(instr.X).(iface))
+		fr.set(instr, typeAssert(fr.i, instr, fr.get(instr.X).(iface)))
 
 	case *ssa.MakeClosure:
 		var bindings []value
 		for _, binding := range instr.Bindings {
 			bindings = append(bindings, fr.get(binding))
 		}
-		fr.env[instr] = &closure{instr.Fn.(*ssa.Function), bindings}
+		fr.set(instr, &closure{instr.Fn.(*ssa.Function), bindings})
 
 	case *ssa.Phi:
 		panic("unreachable") // phis are processed at block entry
 
 	case *ssa.Select:
-		fr.env[instr] = i.doSelect(fr, instr)
+		fr.set(instr, i.doSelect(fr, instr))
 
 	default:
 		panic(fmt.Sprintf("unexpected instruction: %T", instr))
@@ -580,18 +635,19 @@ func callSSA(i *interpreter, caller *frame, callpos token.Pos, fn *ssa.Function,
 		i.funcsEncoded[fn] = true
 	}
 
-	fr.env = make(map[ssa.Value]value)
+	fr.info = infoOf(fn)
+	fr.env = make([]value, fr.info.n)
 	fr.block = fn.Blocks[0]
 	fr.locals = make([]value, len(fn.Locals))
 	for k, l := range fn.Locals {
 		fr.locals[k] = zero(mustDeref(l.Type()))
-		fr.env[l] = &fr.locals[k]
+		fr.set(l, &fr.locals[k])
 	}
 	for k, p := range fn.Params {
-		fr.env[p] = args[k]
+		fr.set(p, args[k])
 	}
 	for k, fv := range fn.FreeVars {
-		fr.env[fv] = env[k]
+		fr.set(fv, env[k])
 	}
 	if i.inInit > 0 && caller != nil {
 		// permissive mode: an unsupported operation inside a package initialiser
@@ -728,7 +784,7 @@ func executePhis(fr *frame) []ssa.Instruction {
 			fr.phitemps = append(fr.phitemps, fr.get(phi.Edges[predIndex]))
 		}
 		for i, phi := range phis {
-			fr.env[phi.(*ssa.Phi)] = fr.phitemps[i]
+			fr.set(phi.(*ssa.Phi), fr.phitemps[i])
 		}
 	}
 	return nonPhis
@@ -757,4 +813,46 @@ func doRecover(caller *frame) value {
 // runtimeError builds a value of type runtime.Error (here: an errors.errorString-like iface).
 func (i *interpreter) runtimeError(msg string) value {
 	return iface{t: i.eng.runtimeErrT, v: msg}
+}
+
+var bigSlicePool sync.Pool
+
+// allocSlice allocates backing storage; large buffers are recycled between paths.
+func (i *interpreter) allocSlice(n int) []value {
+	if n < 16384 {
+		return make([]value, n)
+	}
+	if v := bigSlicePool.Get(); v != nil {
+		s := v.([]value)
+		if cap(s) >= n {
+			s = s[:n:n]
+			i.bigSlices = append(i.bigSlices, s)
+			return s
+		}
+	}
+	s := make([]value, n)
+	i.bigSlices = append(i.bigSlices, s)
+	return s
+}
+
+// releaseBig returns the large buffers of a finished path to the pool.
+func (i *interpreter) releaseBig() {
+	for _, s := range i.bigSlices {
+		bigSlicePool.Put(s[:cap(s)])
+	}
+	i.bigSlices = nil
+}
+
+// fillZero fills s with the scalar zero value z (template copy for large slices).
+func fillZero(s []value, z value) {
+	if len(s) < 256 {
+		for k := range s {
+			s[k] = z
+		}
+		return
+	}
+	s[0] = z
+	for n := 1; n < len(s); n *= 2 {
+		copy(s[n:], s[:n])
+	}
 }
